@@ -3,7 +3,10 @@
 use std::path::Path;
 use std::process::{Command, Stdio};
 
-pub const SHIM: &str = "/verif/build/libsimseam.so";
+pub fn shim() -> String {
+    // the harness itself runs under the shim; children get the same one
+    std::env::var("LD_PRELOAD").unwrap_or_else(|_| "/verif/build/libsimseam.so".to_string())
+}
 
 #[derive(Clone, Debug, Default)]
 pub struct Io {
@@ -25,7 +28,7 @@ pub fn run(bin: &Path, argv: &[String], hash_seed: u64, io: &Io) -> std::io::Res
     let mut c = Command::new(bin);
     c.args(argv);
     c.env_clear();
-    c.env("LD_PRELOAD", SHIM);
+    c.env("LD_PRELOAD", shim());
     c.env("SIMSEAM_HASH_SEED", hash_seed.to_string());
     c.env("RUST_BACKTRACE", "0");
     if let Some(plan) = &io.plan {
